@@ -20,6 +20,9 @@ CLAIMED = {
  "C11": ("exploration", "property-based testing (Hypothesis histories) with invariant oracle over a sequence-numbered invocation log, through the real backend loop",
          "Populations of 1-8 heart-beat objects with intervals 1-4 and scripts performing set_heart_beat(self/other), destruct(self/other), load-and-enable and error inside heart_beat, plus the same actions between ticks; 5-40 scripted ticks through the real call_heart_beat(). Invariants: at most one call per tick, no call after disable/destruct completed, exact period in error-free runs, failing object switched off, query_heart_beat agrees with the model after every tick.",
          "The first call after (re-)enabling is accepted in a window of ticks (the statement does not fix it); ticks with an error are excluded from the period rule."),
+ "C16": ("exploration", "property-based round-trip and mutation testing (Hypothesis) plus fault enumeration of a save at every system-call boundary (strace SIGKILL injection)",
+         "Generated nested values (64-bit ints, floats, UTF-8 strings with every escape-worthy byte, arrays, mappings, class instances up to and past the nesting limit) are round-tripped through save_variable/restore_variable and save_object/restore_object (with static and object-valued variables); valid, truncated and byte-mutated save texts are restored (value or LPC error, re-save stable, no sanitizer report); a save_object replacing an existing file is killed at every file-related system call and the file must hold exactly the old or the new contents.",
+         "Floats compared to the printed precision (relative 2e-6); subnormal floats and '\\r' in strings excluded by construction (the latter is a listed known finding); crash points are system-call boundaries."),
 }
 NA_REASON = "check not yet built in this session (machinery under construction; see DESIGN.md section 4 for the planned check)"
 
